@@ -14,6 +14,8 @@
 //                    zeros, left uncompressed), default constructor + Eigen-matrix setters, or the default-constructed model itself
 //     block = partial(S) reward(1) { unnorm(S) norm(S) punnorm(S) pnorm(S) [sosa(S*S) if <sosa>] } for o = 0..O-1
 //     pob   = SparseModel::getObservationProbability(b, o, a) of the sparse model of the line
+//   C05 traj <rep> S A O | T | Ob | b0 (S) | s0 n (a s1 o)*n | bel_t (S) for t = 1..n
+//     a trajectory simulated by the model's own sampleSOR, the belief maintained by updateBelief  (rep = dense | sparse | sparseraw)
 //   C05 tab <class> <route> S A O | T (A*S*S, a-major) | Ob (A*S*O, a-major)
 //        | getTransitionProbability (A*S*S) | getTransitionFunction(a)(s,s1) | getObservationProbability (A*S*O) | getObservationFunction(a)(s1,o)
 //   C05 accept <class> S A O | T | Ob | <1 = constructed, 0 = std::invalid_argument>      (class = dense | sparse, table constructors)
@@ -23,6 +25,7 @@
 //     fn = unnorm | update | partial | punnorm | pnorm  (the five pointer overloads)
 //   C05 overload <component> <what>      (only emitted when two overloads of one helper disagree)
 #include "common/verif.hpp"
+#include <AIToolbox/Seeder.hpp>
 #include <AIToolbox/MDP/Model.hpp>
 #include <AIToolbox/MDP/SparseModel.hpp>
 #include <AIToolbox/POMDP/Model.hpp>
@@ -520,6 +523,34 @@ static void emitHist(const M & m, const char * rep, const Tables & t, const AI::
     l.emit();
 }
 
+// the model simulates (sampleSOR), the filter follows (updateBelief): the true state must never get probability zero
+template <class M>
+static void emitTraj(const M & m, const char * rep, const Tables & t, const AI::Vector & b0, Rng & rng, size_t n) {
+    std::vector<size_t> sup;
+    for (size_t s = 0; s < t.S; ++s) if (b0[s] > 0.0) sup.push_back(s);
+    size_t s = rng.pick(sup);
+    const size_t s0 = s;
+    std::vector<size_t> as, s1s, os; std::vector<AI::Vector> bels;
+    AI::Vector bel = b0;
+    for (size_t k = 0; k < n; ++k) {
+        const size_t a = rng.below(t.A);
+        const auto [s1, o, r] = m.sampleSOR(s, a); (void)r;
+        bel = PO::updateBelief(m, bel, a, o);
+        as.push_back(a); s1s.push_back(s1); os.push_back(o); bels.push_back(bel);
+        s = s1;
+        bool fin = true; for (long i = 0; i < bel.size(); ++i) if (!std::isfinite(bel[i])) fin = false;
+        if (!fin) break;       // reported; nothing sensible to feed into the next step
+    }
+    Line l; l << "C05" << "traj" << rep << t.S << t.A << t.O << "|";
+    putTables(l, t);
+    l << "|"; putVec(l, b0);
+    l << "|" << s0 << (size_t)as.size();
+    for (size_t k = 0; k < as.size(); ++k) l << as[k] << s1s[k] << os[k];
+    l << "|";
+    for (auto & b : bels) putVec(l, b);
+    l.emit();
+}
+
 // in-place use of the pointer overloads (output vector == input vector)
 static void inplaceLine(const char * fn, const char * rep, const Tables & t, size_t a, size_t o, bool exact,
                         const AI::Vector & in, const AI::Vector & out, const AI::Vector & inpl) {
@@ -705,9 +736,12 @@ static void runFixed(long idx) {
     emitHist(*M.sparse, "sparse", t, b0, rng, 4, true);
     emitHist(M.user, "generic", t, b0, rng, 4, true);
     emitHist(*M.userEigen, "usereigen", t, b0, rng, 4, true);
+    { AI::Vector bu = AI::Vector::Constant(t.S, 1.0 / (double)t.S); if (t.S == 3) bu << 0.5, 0.25, 0.25;
+      emitTraj(*M.dense, "dense", t, b0, rng, 8); emitTraj(*M.sparse, "sparse", t, bu, rng, 8); }
 }
 
 static void verif_case_inner(Rng & rng, long idx, const std::string & tier) {
+    AI::Seeder::setRootSeed((unsigned)(rng.next() & 0x7fffffffu));     // the models' own engines (sampleSOR) are seeded from here
     if (idx < kFixed) { runFixed(idx); return; }
     const bool thorough = tier == "thorough";
     // stream: 70% dyadic (bit-exact), 20% ugly (non-dyadic, tolerance compare), 10% tiny (sub-threshold entries)
@@ -768,6 +802,10 @@ static void verif_case_inner(Rng & rng, long idx, const std::string & tier) {
     emitHist(M.user, "generic", M.t, b0, r3, n, hexact);
     emitHist(*M.userEigen, "usereigen", M.t, b0, r4, n, hexact);
     { Rng r5 = rng; emitHist(*M.userSparse, "usersparse", M.t, b0, r5, n, hexact); }
+    // simulated trajectories (longer: nothing is compared bit for bit here)
+    { Rng r6 = rng, r7 = rng; const size_t len = (size_t)rng.range(2, 12);
+      emitTraj(*M.dense, "dense", M.t, b0, r6, len);
+      emitTraj(*M.sparse, rt == RT_TABLE ? "sparse" : "sparseraw", M.t, b0, r7, len); }
 }
 
 void verif::verif_case(Rng & rng, long idx, const std::string & tier) {
